@@ -215,11 +215,12 @@ Theorem C13_dirty_ranks_agree : forall sts ps opss sts2 i j si sj a b,
 Proof. exact dirty_ranks_agree. Qed.
 Print Assumptions C13_dirty_ranks_agree.
 
-(* a variable clean on a rank that does not touch it keeps all its fields *)
-Theorem C13_clean_untouched : forall sts ps opss sts2 i s s2,
+(* a variable clean on a rank that does not touch it keeps all its fields, whether the round ends with sc_stats_compute
+   (ops = []) or with sc_stats_compute1 (ops = [OPrep1]) *)
+Theorem C13_clean_untouched : forall sts ps opss sts2 i s ops s2,
   Forall2 Inv sts ps -> legal_all ps opss -> round_rel sts opss sts2 ->
-  nth_error sts i = Some s -> nth_error ps i = Some None -> nth_error opss i = Some [] -> nth_error sts2 i = Some s2 ->
-  s2 = s.
+  nth_error sts i = Some s -> nth_error ps i = Some None -> nth_error opss i = Some ops -> Forall (fun o => o = OPrep1) ops ->
+  nth_error sts2 i = Some s2 -> s2 = s.
 Proof. exact clean_untouched. Qed.
 Print Assumptions C13_clean_untouched.
 
@@ -254,34 +255,68 @@ Theorem C13_union_derived : forall ps s, union ps <> [] -> holds_union ps s ->
 Proof. exact union_derived. Qed.
 Print Assumptions C13_union_derived.
 
-(* sc_stats_compute1: on a dirty variable the single sample sum_values; on a CLEAN variable it overwrites count,
-   sum_squares, min, max although the documentation says "Only updates dirty variables" (witness) *)
+(* sc_stats_compute1 (repaired, finding F-C13a): on a dirty variable the single sample sum_values; a CLEAN variable is left
+   untouched by the whole call whatever the reduction yields.  Rounds ending with sc_stats_compute1 are ordinary rounds of
+   C13_round / C13_history_* (call OPrep1 as every rank's last call; the ghost of a clean variable stays None). *)
 Theorem C13_compute1_dirty : forall s xs, Inv s (Some xs) -> Inv (prep1 s) (Some [zsum xs]).
 Proof. exact compute1_dirty. Qed.
 Print Assumptions C13_compute1_dirty.
 
-Theorem C13_compute1_clean_refuted : exists s g, v_dirty s = 0 /\ post (prep1 s) g <> s.
-Proof. exact compute1_clean_refuted. Qed.
-Print Assumptions C13_compute1_clean_refuted.
+Theorem C13_compute1_clean : forall s g, v_dirty s = 0 -> prep1 s = s /\ post (prep1 s) g = s.
+Proof. exact compute1_clean. Qed.
+Print Assumptions C13_compute1_clean.
 
-(* non-vacuity: three ranks, three rounds.  Round 1: samples {5, 7} / none (init only) / set1 -3.  Round 2: rank 0 leaves the
+(* regression guard for the repair of F-C13a: the loop body as it was BEFORE the repair (VarModel.prep1_old, no test of the
+   dirty flag).  P = 1: init; accumulate 2; accumulate 4; compute; compute1 -> count 1, sum_squares 36, min 6, max 6 *)
+Theorem C13_compute1_clean_old_refuted :
+  let s0 := run_ops vzero [OInit; OAcc 2; OAcc 4] in
+  let s1 := post s0 (pack 0 s0) in
+  let s2 := post (prep1_old s1) (pack 0 (prep1_old s1)) in
+  v_dirty s1 = 0 /\ rec_of s1 = mk 2 6 20 2 4 0 0 /\ rec_of s2 = mk 1 6 36 6 6 0 0 /\ s2 <> s1 /\
+  post (prep1 s1) (pack 0 (prep1 s1)) = s1.
+Proof. exact compute1_clean_old_refuted. Qed.
+Print Assumptions C13_compute1_clean_old_refuted.
+
+(* non-vacuity: three ranks, four rounds.  Round 1: samples {5, 7} / none (init only) / set1 -3.  Round 2: rank 0 leaves the
    variable clean, rank 1 resets and contributes nothing, rank 2 resets and accumulates 4.  Round 3: ranks 0 and 1 init
-   without samples, rank 2 clean: no sample at all, the variable stays dirty with count 0 on ranks 0 and 1. *)
+   without samples, rank 2 clean: no sample at all, the variable stays dirty with count 0 on ranks 0 and 1.  Round 4 ends with
+   sc_stats_compute1: rank 0 still dirty (sample 0), rank 1 resets and accumulates 9 (sample 9), rank 2 CLEAN: untouched. *)
 Example C13_history_nonvacuous :
-  let rounds := [[[OInit; OAcc 5; OAcc 7]; [OInit]; [OSet1 (-3)]]; [[]; [OReset]; [OReset; OAcc 4]]; [[OInit]; [OInit]; []]] in
+  let rounds := [[[OInit; OAcc 5; OAcc 7]; [OInit]; [OSet1 (-3)]]; [[]; [OReset]; [OReset; OAcc 4]]; [[OInit]; [OInit]; []];
+                 [[OPrep1]; [OReset; OAcc 9; OPrep1]; [OPrep1]]] in
   let ps0 := [None; None; None] in let sts0 := [vzero; vzero; vzero] in
   Forall2 Inv sts0 ps0 /\ legal_hist ps0 rounds /\
-  (exists s1 s2 s3, hist sts0 rounds s3 /\ hist_exec sts0 rounds = [s1; s2; s3] /\
+  (exists s1 s2 s3 s4, hist sts0 rounds s4 /\ hist_exec sts0 rounds = [s1; s2; s3; s4] /\
      map rec_of s1 = [mk 3 9 83 (-3) 7 2 0; mk 3 9 83 (-3) 7 2 0; mk 3 9 83 (-3) 7 2 0] /\
      map rec_of s2 = [mk 3 9 83 (-3) 7 2 0; mk 1 4 16 4 4 2 2; mk 1 4 16 4 4 2 2] /\
-     map v_dirty s3 = [1; 1; 0] /\ map v_count s3 = [0; 0; 1]) /\
-  ghist ps0 rounds = [Some []; Some []; None].
+     map v_dirty s3 = [1; 1; 0] /\ map v_count s3 = [0; 0; 1] /\
+     map rec_of s4 = [mk 2 9 81 0 9 0 1; mk 2 9 81 0 9 0 1; mk 1 4 16 4 4 2 2] /\ map v_dirty s4 = [0; 0; 0]) /\
+  ghist ps0 rounds = [None; None; None].
 Proof.
   cbv zeta. split; [repeat constructor|]. split.
-  - simpl. repeat split; repeat constructor; discriminate.
+  - simpl. repeat split; repeat constructor; try discriminate; intros [].
   - split; [|reflexivity].
-    eexists; eexists; eexists. split; [|split; [reflexivity|repeat split; reflexivity]].
+    eexists; eexists; eexists; eexists. split; [|split; [reflexivity|repeat split; reflexivity]].
+    eapply hist_cons; [apply round_exec_is_round; [discriminate|reflexivity]|].
     eapply hist_cons; [apply round_exec_is_round; [discriminate|reflexivity]|].
     eapply hist_cons; [apply round_exec_is_round; [discriminate|reflexivity]|].
     eapply hist_cons; [apply round_exec_is_round; [discriminate|reflexivity]|]. apply hist_nil.
 Qed.
+
+(* in exact arithmetic the clamp SC_MAX (variance, 0.) never acts (Cauchy-Schwarz): it only guards against rounding *)
+Theorem C13_cauchy_schwarz : forall U, zsum U * zsum U <= Z.of_nat (length U) * zsumsq U.
+Proof. exact cauchy_schwarz. Qed.
+Print Assumptions C13_cauchy_schwarz.
+
+Theorem C13_union_variance_exact : forall ps s, union ps <> [] -> holds_union ps s ->
+  (v_var s == inject_Z (v_sq s) / inject_Z (v_count s) - v_avg s * v_avg s)%Q.
+Proof. exact union_variance_exact. Qed.
+Print Assumptions C13_union_variance_exact.
+
+(* ranks without samples get the union's numbers *)
+Theorem C13_no_sample_rank : forall sts ps opss sts2 i s1 s2,
+  Forall2 Inv sts ps -> legal_all ps opss -> round_rel sts opss sts2 ->
+  nth_error (run_all sts opss) i = Some s1 -> nth_error (grun_all ps opss) i = Some (Some []) -> nth_error sts2 i = Some s2 ->
+  union (grun_all ps opss) <> [] -> holds_union (grun_all ps opss) s2.
+Proof. exact no_sample_rank. Qed.
+Print Assumptions C13_no_sample_rank.
